@@ -6,7 +6,8 @@ CONSTANTS
   MaxLen = 3
   MaxTime = 2
   RawOps = TRUE
-  IOAmts <- IO1
+  IOIns <- InsQS
+  IOOuts <- OutsQS
   Genesis <- Gen2
 VIEW View
 INVARIANTS SupplyEq BalanceWellFormed SupplyWellFormed HolderHasAccount NumsUnique
